@@ -144,6 +144,18 @@ def advertisements (t : DevTree) : List Msg :=
 
 /-! ### the search responder's datagram handler -/
 
+/-- how an option key occurs in the responder's / announcer's `options` dict -/
+inductive OptVal where
+  | absent          -- key missing (or `options=None` / `{}`)
+  | falsy           -- key present with a falsy value (`False`, `None`, `0`, `""`, `{}`)
+  | truthy          -- key present with a truthy value
+deriving Repr, DecidableEq
+
+/-- `if self.options.get(KEY):` — the code reads its options by truthiness, not by presence -/
+def OptVal.isSet : OptVal → Bool
+  | .truthy => true
+  | _ => false
+
 /-- constants and control shape of `_on_data` (taken from the source by `Gen/C13Server.lean`) -/
 structure Consts where
   mxCap : Nat
